@@ -44,15 +44,93 @@ ASSUMPTIONS = [
 ]
 
 
-def load_and_run(text, tmp):
+def load_and_run(text, tmp, fail_first=False):
+    from mpilot.exceptions import MPilotError
     from mpilot.program import Program
 
     from ..history import maybe_earlier_v2_load
 
     maybe_earlier_v2_load(text)
     prog = Program.from_source(text, working_dir=tmp)
+    if fail_first:
+        # a first attempt on a table with a cell that is no number fails while the model runs; the table is repaired
+        # and the same Program object is run again: it then evaluates the graph on the table as it now is
+        path = os.path.join(tmp, "input.csv")
+        with open(path) as f:
+            good = f.read()
+        lines = good.split("\n")
+        k = 1 + (len(lines) - 2) // 2
+        lines[k] = ",".join(["n/a"] + lines[k].split(",")[1:])
+        with open(path, "w") as f:
+            f.write("\n".join(lines))
+        try:
+            prog.run()
+        except MPilotError:
+            pass
+        finally:
+            with open(path, "w") as f:
+                f.write(good)
     prog.run()
     return prog
+
+
+def twin_failures(model, rec, text):
+    """The same model description applied to two tables by a caller of the programming interface: two Program objects
+    built from the very same argument objects (Argument instances, hence the same lists), each with its own working
+    directory; the first is run, then the second -- whose results must be those of *its* table."""
+    import copy
+
+    from mpilot.arguments import Argument
+    from mpilot.program import EEMS_CSV_LIBRARIES, Program
+
+    from . import c12
+
+    model2 = copy.deepcopy(model)
+    for spec in model2["cols"].values():
+        spec["data"] = [x + 1 for x in spec["data"]]
+    ref2 = M.reference_results(model2)
+    if any(isinstance(v, tuple) for v in ref2.values()):
+        rec.exclude("twin:second_table_leads_to_a_documented_error")
+        return []
+    cmds = c12.model_commands(model)[2:]
+    shared = [(c, {k: Argument(k, c12.api_value(v)) for k, v in c["args"]}) for c in cmds]
+    tmps = [tempfile.mkdtemp(prefix="vcheck-c02-twin-") for _ in range(2)]
+    fails = []
+    try:
+        progs = []
+        for m, tmp in zip((model, model2), tmps):
+            M.write_table(m, os.path.join(tmp, "input.csv"))
+            prog = Program(libraries=EEMS_CSV_LIBRARIES, working_dir=tmp)
+            for c, args in shared:
+                prog.add_command(prog.find_command_class(c["cmd"]), c["name"], dict(args))
+            progs.append(prog)
+        try:
+            progs[0].run()
+            progs[1].run()
+        except Exception as exc:
+            if any(isinstance(v, M.NodeUndefined) for v in ref2.values()):
+                rec.exclude("twin:raises_with_undefined_nodes")
+                return []
+            return [Failure("model|twin_program_raises:%s" % A.exc_name(exc), "%s\n%s" % (sstr(exc)[:300], text))]
+        rec.label("twin_programs_from_shared_arguments")
+        bad = set()
+        stats = {}
+        for node in model["nodes"]:
+            name, r = node["name"], ref2[node["name"]]
+            if any(i in bad for i in node.get("inputs", [])) or not isinstance(r, list):
+                bad.add(name)
+                continue
+            before = stats.get("int_overflow", 0)
+            fs = A.compare(progs[1].commands[name].result, r, (model["rows"],), "%s|model|second_of_twin_programs" % node["cmd"], stats=stats)
+            if fs or stats.get("int_overflow", 0) != before:
+                bad.add(name)
+            for f in fs:
+                f.detail = "%s (every cell of the second table is one more than in the first): %s\n%s" % (name, f.detail, text)
+            fails.extend(fs)
+        return fails
+    finally:
+        for tmp in tmps:
+            shutil.rmtree(tmp, ignore_errors=True)
 
 
 def localise(text, tmp, model):
@@ -99,12 +177,18 @@ def check_model(model, rec):
         ncmd = len(model["nodes"]) - len(model["cols"])
         rec.label("nodes:%d" % min(ncmd, 10))
         try:
-            prog = load_and_run(text, tmp)
+            prog = load_and_run(text, tmp, fail_first=model.get("history") == "fail_first")
             results = {k: ("ok", c.result) for k, c in prog.commands.items()}
             run_exc = None
         except Exception as exc:
             run_exc = exc
             results = localise(text, tmp, model)
+            if model.get("history") == "fail_first" and "<load>" not in results and not any(v[0] == "err" for v in results.values()):
+                return [Failure("model|run_after_repaired_input_raises:%s" % A.exc_name(exc),
+                                "first run on a table with a non-numeric cell (rejected), table repaired, second run of the same "
+                                "program: %s\n%s" % (sstr(exc)[:300], text))]
+        if model.get("history") == "fail_first":
+            rec.label("rerun_after_failed_attempt")
         if "<load>" in results:
             exc = results["<load>"][1]
             return [Failure("load_raises:%s" % A.exc_name(exc), "%s\n%s" % (sstr(exc)[:300], text))]
@@ -159,6 +243,9 @@ def check_model(model, rec):
             rec.nontrivial_case(model)
             rec.label("nontrivial", sample={"text": text} if len(text) < 700 else None)
 
+        if run_exc is None and not fails and not expects and model.get("history") == "twin":
+            fails.extend(twin_failures(model, rec, text))
+
         # the same Program object extended after its run: new commands are evaluated, earlier results stay as they are
         if run_exc is None and not fails and model.get("extra_on") is not None:
             try:
@@ -212,6 +299,7 @@ def model_cases(draw, cmds=None):
     model = draw(M.typed_models(cmds=cmds))
     model["order2"] = list(draw(st.permutations(list(range(len(model["nodes"]))))))
     model["extra_on"] = draw(st.integers(0, 20))
+    model["history"] = draw(st.sampled_from([None, None, None, "fail_first", "twin"]))
     return model
 
 
